@@ -215,7 +215,8 @@ func (k Keeper) SetBridgeValidatorParams(ctx context.Context, bridgeValidatorSet
 	for _, validator := range bridgeValidatorSet.BridgeValidatorSet {
 		totalPower += validator.GetPower()
 	}
-	powerThreshold := totalPower * 2 / 3
+	// floor(2*totalPower/3) without overflowing uint64 for totals of 2^63 and above
+	powerThreshold := totalPower/3*2 + totalPower%3*2/3
 
 	sdkCtx := sdk.UnwrapSDKContext(ctx)
 	validatorTimestamp := uint64(sdkCtx.BlockTime().UnixMilli())
